@@ -30,6 +30,8 @@ Definition render_code (c : tcode) (cfg : data) (env : N) : rres :=
   | 2 => RObj k (pick_def (tc_pick c) cfg []) (tc_orefs c)         (* index .config "kN" | default "v0" *)
   | 3 => RObj k (dset 99 (env mod 1000) cfg) (tc_orefs c)          (* + .environment.kubernetes.version *)
   | 6 => RObj k (dset 98 (env / 1000) (dset 99 (env mod 1000) cfg)) (tc_orefs c)   (* + the HyperShift part, see Template.view *)
+  | 7 => RObj k (fold_left (fun acc kv => dset (fst kv + 2000) (snd kv) (dset (fst kv + 1000) (snd kv) acc)) cfg cfg)
+              (tc_orefs c)                                         (* every collected value also as label and annotation *)
   | 4 => RTmplErr                                                  (* unparsable text *)
   | _ => RYamlErr                                                  (* renders to non-YAML *)
   end.
@@ -152,7 +154,12 @@ Definition post_invalid (post : cworld) : N := match w_tmpl post with Some t => 
 Definition successful (pre post : cworld) (r : pres) : bool :=
   match live pre with Some _ => (p_err r =? 0) && (post_invalid post =? 0) | None => false end.
 Definition is_none {A} (x : option A) : bool := match x with None => true | Some _ => false end.
-Definition wrote (k : key) (d : data) (evs : list ev) : bool := existsb (kd_eqb (k, d)) (target_writes evs).
+(** a write of (k', d') realises the rendered object (k, d): same key, every rendered entry with its rendered value,
+    no .data entry beyond the rendered ones; label / annotation keys the existing target alone had may stay
+    (labels.Merge(existing, rendered), as the code on /repo does) *)
+Definition realises (rendered written : key * data) : bool :=
+  key_eqb (fst rendered) (fst written) && follows (snd written) (snd rendered).
+Definition wrote (k : key) (d : data) (evs : list ev) : bool := existsb (realises (k, d)) (target_writes evs).
 
 Definition c_scan (pre : cworld) (t : tmpl tcode) : scanres :=
   scan SC (src_bad SC (t_ns t)) (w_store pre) (t_ns t) (t_sources t) [] false.
@@ -164,7 +171,7 @@ Definition src_obj (w : cworld) (t : tmpl tcode) (s : source) : option obj := lo
 
 (** 1. output_is_render *)
 Definition cl_render (pre : cworld) (t : tmpl tcode) (r : pres) : bool :=
-  forallb (fun kd => match c_expected t pre with Some e => kd_eqb e kd | None => false end) (target_writes (p_evs r))
+  forallb (fun kd => match c_expected t pre with Some e => realises e kd | None => false end) (target_writes (p_evs r))
   && match c_expected t pre with Some (k, d) => negb (p_err r =? 0) || wrote k d (p_evs r) | None => true end.
 (** 2. required_missing_no_write *)
 Definition cl_required (ivres : N) (pre post : cworld) (t : tmpl tcode) (r : pres) : bool :=
@@ -215,7 +222,7 @@ Definition cl_quiescent (post : cworld) (t : tmpl tcode) (r : pres) : bool :=
   self_write t r
   || match w_tmpl post with
      | Some t' => match c_expected t' post with
-                  | Some (k, d) => match lookup k (w_store post) with Some o => data_eqb (o_data o) d | None => false end
+                  | Some (k, d) => match lookup k (w_store post) with Some o => follows (o_data o) d | None => false end
                   | None => false
                   end
      | None => false
@@ -237,7 +244,7 @@ Definition cl_reads (pre : cworld) (r : pres) (rs : list (option data)) : bool :
       | Some t =>
           match cfg_of_reads (t_sources t) rs [] with
           | Some cfg => match R (t_code t) cfg (w_env pre) with
-                        | RObj k0 d _ => forallb (kd_eqb (eff_key (t_ns t) k0, d)) ws && Nat.eqb (length ws) 1
+                        | RObj k0 d _ => forallb (realises (eff_key (t_ns t) k0, d)) ws && Nat.eqb (length ws) 1
                         | _ => false
                         end
           | None => false
@@ -293,7 +300,7 @@ Definition final_clause (c : ccase) : bool :=
           if successful pre post r && negb (self_write t r)
           then match cc_ref c with
                | Some (k0, d) => match lookup (eff_key (t_ns t) k0) (w_store post) with
-                                 | Some o => data_eqb (o_data o) d | None => false end
+                                 | Some o => follows (o_data o) d | None => false end
                | None => false
                end
           else true
@@ -329,7 +336,7 @@ Fixpoint quiet_scan (pre : cworld) (ss : list cstep) (os : list (sobs * cworld))
 Definition target_follows (w : cworld) : bool :=
   match w_tmpl w with
   | Some t' => match c_expected t' w with
-               | Some (k, d) => match lookup k (w_store w) with Some o => data_eqb (o_data o) d && o_label o | None => false end
+               | Some (k, d) => match lookup k (w_store w) with Some o => follows (o_data o) d && o_label o | None => false end
                | None => false
                end
   | None => false
@@ -403,16 +410,17 @@ Section Sound.
     Proof.
       unfold cl_render. apply andb_true_iff. split.
       - apply forallb_forall. intros [k d] Hin.
-        destruct (output_is_render _ _ _ _ _ _ _ _ Ht Hd Hp k d Hin) as (cfg & rt & k0 & orefs & Hs & Hr & Hpf & -> & _).
+        destruct (output_is_render _ _ _ _ _ _ _ _ Ht Hd Hp k d Hin) as (cfg & rt & k0 & body & orefs & Hs & Hr & Hf & Hpf & -> & _).
         fold tns in Hs, Hpf. rewrite g_scan in Hs.
         unfold c_expected, expected. fold (c_scan w t). rewrite Hs, Hr, bad_pf. fold tns. rewrite Hpf.
-        apply kd_eqb_refl.
+        unfold realises. cbn [fst snd]. now rewrite key_eqb_refl, Hf.
       - destruct (c_expected t w) as [[k d]|] eqn:Ee; [|reflexivity].
         destruct (expected_inv _ _ Ee) as (cfg & rt & k0 & orefs & Hs & Hr & Hpf & ->).
         rewrite <- g_scan in Hs.
-        destruct (render_is_output _ _ _ _ _ _ _ _ Ht Hd Hp _ _ _ _ _ Hs Hr Hpf) as [He|Hw].
+        destruct (render_is_output _ _ _ _ _ _ _ _ Ht Hd Hp _ _ _ _ _ Hs Hr Hpf) as [He|(d' & Hw & Hf)].
         + apply N.eqb_neq in He. now rewrite He.
-        + unfold wrote. fold tns in Hw. rewrite Hw. cbn. rewrite kd_eqb_refl. now rewrite orb_true_r.
+        + unfold wrote. fold tns in Hw. rewrite Hw. cbn [existsb]. unfold realises. cbn [fst snd].
+          rewrite key_eqb_refl, Hf. cbn. now rewrite orb_true_r.
     Qed.
 
     Lemma s_required : cl_required ivres w w' t r = true.
@@ -494,7 +502,7 @@ Section Sound.
       unfold cl_quiescent. destruct (self_write t r) eqn:Esw; [reflexivity|]. cbn.
       destruct (success_equals_render _ _ _ _ _ _ _ _ Ht Hd Hp He Hi (self_write_false Esw))
         as (t' & k & d & o & H1 & H2 & H3 & H4 & _).
-      rewrite H1. unfold c_expected. rewrite H2, H3, H4. apply data_eqb_refl.
+      rewrite H1. unfold c_expected. rewrite H2, H3, H4. reflexivity.
     Qed.
   End Live.
 
@@ -549,9 +557,9 @@ Section Sound.
       replace (cl_reads w r rs) with true; [reflexivity|]. symmetry. unfold cl_reads.
       destruct (target_writes (p_evs r)) as [|[k d] ws] eqn:Ew; [reflexivity|].
       destruct (w_tmpl w) as [t|] eqn:Et.
-      + destruct (passx_reads _ _ _ _ _ _ _ _ _ _ Et Ep k d) as (Hw & cfg & k0 & orefs & _ & Hc & Hr & _ & Hk); [rewrite Ew; now left|].
+      + destruct (passx_reads _ _ _ _ _ _ _ _ _ _ Et Ep k d) as (Hw & cfg & k0 & body & orefs & _ & Hc & Hr & Hf & _ & Hk); [rewrite Ew; now left|].
         cbn [t_sources t_code t_ns set_fin] in Hc, Hr, Hk. rewrite Ew in Hw. injection Hw as ->.
-        rewrite Hc, Hr, <- Hk. cbn. now rewrite kd_eqb_refl.
+        rewrite Hc, Hr, <- Hk. cbn [forallb length]. unfold realises. cbn [fst snd]. now rewrite key_eqb_refl, Hf.
       + exfalso. unfold Template.passx, req in Ep. cbn [w_tmpl with_store] in Ep. rewrite Et in Ep.
         destruct (adv_fault adv 0) as [[|]|]; injection Ep as _ <- _; discriminate.
     - destruct (pass w) as [w' r] eqn:Ep. cbn [step_clauses]. now apply pass_sound.
@@ -637,7 +645,7 @@ Section Sound2.
       as (t' & k & d & o & H1 & H2 & H3 & H4 & _).
     destruct (pass_table _ _ _ _ _ _ _ _ Et Ed Ep) as (_ & _ & _ & _ & _ & _ & (t2 & Ht2 & Hspec) & _).
     rewrite H1 in Ht2. injection Ht2 as <-. destruct Hspec as (Ens & _).
-    destruct (ref_of_expected _ _ _ _ H1 H2) as (k0 & -> & ->). rewrite Ens, H3, H4. apply data_eqb_refl.
+    destruct (ref_of_expected _ _ _ _ H1 H2) as (k0 & -> & ->). rewrite Ens, H3, H4. reflexivity.
   Qed.
 
   (** the quiet clause: while armed, either a request is pending or the world is calm *)
@@ -702,7 +710,7 @@ Section Sound2.
     destruct (quiet_scan w ss (run w ss) false) as [a wf]. destruct a; [|reflexivity]. cbn [andb].
     destruct (w_pending wf) eqn:Ep; [reflexivity|]. cbn [negb].
     destruct (H eq_refl) as [Hp|(t & k & d & o & Ht & _ & Hex & _ & Hlk & Hod & Hol & _)]; [congruence|].
-    unfold target_follows. rewrite Ht. unfold c_expected. rewrite Hex, Hlk, Hod, Hol, data_eqb_refl. reflexivity.
+    unfold target_follows. rewrite Ht. unfold c_expected. rewrite Hex, Hlk, Hod, Hol. reflexivity.
   Qed.
 
   Theorem monitor_sound w ss : monitor (model_case w ss) = true.
